@@ -40,8 +40,6 @@ class SimSubprocess:
     PIPE = PIPE
     STDOUT = STDOUT
     DEVNULL = DEVNULL
-    CalledProcessError = Exception
-
     def __init__(self, installed, plan, ctx, real_open):
         """installed: name -> {'convention':..., 'shape':{...}}
         plan: fault plan dict (see Peer.communicate)."""
@@ -77,6 +75,59 @@ class SimSubprocess:
 
         self.Popen = Popen
 
+        class CompletedProcess:
+            def __init__(self, args, returncode, stdout=None, stderr=None):
+                self.args = args
+                self.returncode = returncode
+                self.stdout = stdout
+                self.stderr = stderr
+
+            def check_returncode(self):
+                if self.returncode:
+                    raise outer.CalledProcessError(self.returncode,
+                                                   self.args)
+
+        self.CompletedProcess = CompletedProcess
+
+    # -- the rest of the subprocess API, on top of the fake Popen ----------
+    class TimeoutExpired(Exception):
+        pass
+
+    class CalledProcessError(Exception):
+        def __init__(self, returncode, cmd, output=None, stderr=None):
+            super().__init__("Command %r returned non-zero exit status %r" %
+                             (cmd, returncode))
+            self.returncode = returncode
+            self.cmd = cmd
+            self.output = output
+            self.stderr = stderr
+
+    SubprocessError = Exception
+
+    def run(self, args, input=None, stdin=None, stdout=None, stderr=None,
+            capture_output=False, timeout=None, check=False, **kw):
+        p = self.Popen(args, stdin=stdin, stdout=stdout, stderr=stderr)
+        out, err = p.communicate(input)
+        if not (capture_output or stdout == PIPE):
+            out = None
+        if not (capture_output or stderr == PIPE):
+            err = None
+        cp = self.CompletedProcess(p.args, p.returncode, out, err)
+        if check:
+            cp.check_returncode()
+        return cp
+
+    def call(self, args, **kw):
+        return self.run(args, **kw).returncode
+
+    def check_call(self, args, **kw):
+        self.run(args, check=True, **kw)
+        return 0
+
+    def check_output(self, args, **kw):
+        kw.pop("stdout", None)
+        return self.run(args, stdout=PIPE, check=True, **kw).stdout
+
     # -- process creation -------------------------------------------------
     def _popen(self, p, stdin, stdout, stderr):
         name = p.args[0] if p.args else ""
@@ -90,6 +141,8 @@ class SimSubprocess:
         if probe:
             rec["outcome"] = "probe-ok"
             p.kind = "probe"
+            # real solvers disagree on the exit status of '--help'
+            p.returncode = self.installed[name].get("help_rc", 0)
             return
         fail = self.plan.get("exec_fails")
         if fail:
